@@ -99,7 +99,7 @@ def r1(repo, chk):
     ok = len(loops) == 1 and norm(loops[0].iter) == "self._retire_connection_ids[:]"
     chk.ob("R1", "_write_application announces every pending retirement (iterates over a copy of the list while consuming it)", ok, "", wa.loc(wa.node))
     cids = [l for l in wa.stmts(lambda s: isinstance(s, ast.For)) if norm(l.iter) == "self._host_cids"]
-    ok = any(any(isinstance(n, ast.If) and norm(n.test) == f"not {norm(l.target)}.was_sent" for n in ast.walk(l)) for l in cids)
+    ok = any(any(isinstance(n, ast.If) and norm(n.test) == f"not {norm(l.target)}.was_sent" and any(isinstance(c, ast.Call) and call_name(c) == "self._write_new_connection_id_frame" and norm(get_kw(c, "connection_id", 1)) == norm(l.target) for b in n.body for c in ast.walk(b)) for n in ast.walk(l)) for l in cids)
     chk.ob("R1", "_write_application announces every issued connection ID that was not sent yet", ok, "", wa.loc(wa.node))
 
 
@@ -170,6 +170,19 @@ def r3(repo, chk):
         adds = [c for c in h.calls(name="self._peer_cid_sequence_numbers.add") if norm(c.args[0]) == "sequence_number"]
         ok = len(adds) == 1 and h.lexical_guards(adds[0], expand=False) == h.lexical_guards(a, expand=False)
         chk.ob("R3", "every stored ID's sequence number is remembered", ok, "", h.loc(a))
+    # the ID in use is abandoned exactly when it falls below retire-prior-to
+    flags = [(st, t) for st, t, v in h.assigns(chain="change_cid") if isinstance(v, ast.Constant) and v.value is True]
+    ok = len(flags) == 1
+    if ok:
+        lg = h.lexical_guards(flags[0][0], expand=False)
+        ok = lg == [natom("self._peer_cid.sequence_number < self._peer_retire_prior_to")] and bool(rpt) and h.before(rpt[0][0], flags[0][0])
+    chk.ob("R3", "the ID in use is marked for replacement exactly when its sequence number < the (updated) retire-prior-to", ok, f"guards {h.lexical_guards(flags[0][0], expand=False) if flags else None}: the endpoint would keep addressing packets to a connection ID the peer asked it to retire", h.loc(h.node))
+    cons_h = h.calls(name="self._consume_peer_cid")
+    ok = len(cons_h) == 1 and ("change_cid", True) in h.guard_atoms(cons_h[0]) and len(h.assigns(chain="change_cid")) == 2
+    chk.ob("R3", "a replacement is taken into use whenever the ID in use was marked (change_cid)", ok, "", h.loc(h.node))
+    if cons_h:
+        others = [a for a in h.lexical_guards(cons_h[0], expand=False) if a != ("change_cid", True)]
+        chk.ob("R3", "the replacement is conditional on nothing else (an empty list raises instead)", not others, f"{others}", h.loc(cons_h[0]))
     # the seen set only grows
     bad = []
     for fn in _conn_fns(repo):
